@@ -784,6 +784,10 @@ class Interp:
         kind, name = norm_callee(callee)
         if kind == 'ignore':
             return None
+        if kind == 'pure' and name == 'frexp' and len(args) == 2 and args[1].ty == 'ptr':
+            # x = m * 2^e: the mantissa is the value, the exponent goes through the pointer
+            self.store(state, args[1], 4, T.call('frexp_exp', [args[0]], 'i32'))
+            return T.call('frexp_man', [args[0]], ty)
         if kind == 'pure':
             return T.call(name, args, ty)
         if kind in ('memcpy', 'memmove'):
